@@ -142,8 +142,14 @@ func (c19) Gen(r *simrt.Rand, idx int, tier string) *Case {
 	g.MaxTxn = 16
 	g.MaxSpan = 300
 	c := &Case{Gen: &g, Today: "2030-01-01"}
-	subs := []string{"census", "pipeline", "fail-assert", "fail-price", "fail-include", "fail-syntax", "pipeline", "census"}
+	subs := []string{"census", "pipeline", "fail-assert", "fail-price", "fail-include", "fail-syntax", "pipeline", "registry"}
 	c.Sub = subs[idx%len(subs)]
+	if c.Sub == "registry" {
+		return genRegistryCase(r, c)
+	}
+	if idx%8 == 6 {
+		return genRaceCase(r, c, tier)
+	}
 	switch c.Sub {
 	case "pipeline", "fail-price":
 		g.Prices = "tree"
@@ -230,6 +236,12 @@ var garbage = []string{"2020-13-45 open Assets:Oops\n", "foo bar\n", "2020-01-01
 var garbageMarks = [][]string{{"2020-13-45", "month out of range", "parsing date"}, nil, nil, {"assets"}, nil, nil}
 
 func (c19) Eval(c *Case) (*Violation, bool) {
+	switch c.Sub {
+	case "registry":
+		return evalRegistry(c)
+	case "race":
+		return evalRace(c)
+	}
 	files := c.L.Files(c.J)
 	main := c.L.Main()
 	wantFail := ""
